@@ -206,6 +206,8 @@ LOOP_PROTOCOL_REPLAY = "import runpy, sys\nsys.argv = ['c13_loops']\nrunpy.run_p
 
 
 def replay(ob):
+    if "local_functions." in ob["name"]:
+        return LOOP_PROTOCOL_REPLAY.replace("c13_loops", "c13_local_functions")
     if "assigned_simultaneously" in ob["name"]:
         return LOOP_PROTOCOL_REPLAY.replace("c13_loops", "c13_loop_swap")
     if "attribute_text.evaluates" in ob["name"] and "dtype=object" in ob["name"]:
